@@ -323,13 +323,14 @@ class Reader:
         raise TypeError(f"unexpected Scalar {x!r}")
 
     def note(self, m, e, f):
-        key = (m, e)
-        if key not in self.ftab:
-            try:
-                v = dbl_enc(f())
-            except Exception as ex:
-                v = "nan"
-            self.ftab[key] = v
+        # float(value) depends on how the value is split into number and prefix: keep every observed result
+        try:
+            v = dbl_enc(f())
+        except Exception as ex:
+            v = "nan"
+        self.ftab.setdefault((m, e), [])
+        if v not in self.ftab[(m, e)]:
+            self.ftab[(m, e)].append(v)
 
     def ival(self, n):
         if isinstance(n, bool) or not isinstance(n, int):
@@ -558,8 +559,9 @@ def do_case(case):
         out["out"] = [c_siminput(r) for r in res]
     except Exception as e:
         out["out_err"] = exc_info(e)
-    for (m, e), v in rd.ftab.items():
-        out["ftab"].append([m, e, v, v == dbl_enc(exact_float(m, e))])
+    for (m, e), vs in rd.ftab.items():
+        for v in vs:
+            out["ftab"].append([m, e, v, v == dbl_enc(exact_float(m, e))])
     return out
 
 
